@@ -53,14 +53,15 @@ VARIABLES
     xdsk,     \* XYZ frames in the file
     torn,     \* XYZ file ends with a partial frame
     ckpt,     \* NoCkpt or [done |-> step_done, xlen |-> frames flushed when it was taken]
-    tmp,      \* temp checkpoint file: "none" | "partial" | "complete"
+    tmp,      \* temp checkpoint file of the running process: "none" | "partial" | "complete"
+    litter,   \* temp files left behind by killed processes (never reused, never removed)
     crashes,
     exact,    \* in-memory phase point / electronic state / RNG equals the reference run's
     scr,      \* step labels printed to the screen by the processes so far
     cks,      \* step_done of every checkpoint published so far
     hist      \* crash schedule so far (only if RecordHist)
 
-vars == <<cfg, pc, i, cur, mem, dsk, xbuf, xdsk, torn, ckpt, tmp, crashes, exact, scr, cks, hist>>
+vars == <<cfg, pc, i, cur, mem, dsk, xbuf, xdsk, torn, ckpt, tmp, litter, crashes, exact, scr, cks, hist>>
 
 NoCkpt == [done |-> -1, xlen |-> 0]
 
@@ -96,7 +97,7 @@ InitWith(c) ==
     /\ cur = [s \in H5Streams |-> 0]
     /\ mem = [s \in H5Streams |-> << >>] /\ dsk = [s \in H5Streams |-> << >>]
     /\ xbuf = << >> /\ xdsk = << >> /\ torn = FALSE
-    /\ ckpt = NoCkpt /\ tmp = "none" /\ crashes = 0 /\ exact = TRUE
+    /\ ckpt = NoCkpt /\ tmp = "none" /\ litter = 0 /\ crashes = 0 /\ exact = TRUE
     /\ scr = << >> /\ cks = << >> /\ hist = << >>
 
 Init == \E c \in Configs : InitWith(c)
@@ -115,13 +116,13 @@ Fresh ==
     /\ dsk' = EmptyFile
     /\ xbuf' = IF cfg.xyz > 0 THEN <<0>> ELSE << >>
     /\ pc' = "step" /\ i' = 0
-    /\ UNCHANGED <<cfg, xdsk, torn, ckpt, tmp, crashes, exact, scr, cks, hist>>
+    /\ UNCHANGED <<cfg, xdsk, torn, ckpt, tmp, crashes, exact, scr, cks, hist, litter>>
 
 \* _do_integrator_step: the physics (positions, velocities, forces, densities advance one step)
 Integrate ==
     /\ pc = "step" /\ i < Steps
     /\ pc' = "na"
-    /\ UNCHANGED <<cfg, i, cur, mem, dsk, xbuf, xdsk, torn, ckpt, tmp, crashes, exact, scr, cks, hist>>
+    /\ UNCHANGED <<cfg, i, cur, mem, dsk, xbuf, xdsk, torn, ckpt, tmp, crashes, exact, scr, cks, hist, litter>>
 
 AutoFlush(newcur, W, f) ==
     IF \E s \in W : newcur[s] # cur[s] /\ newcur[s] % FlushRows = 0 THEN f ELSE dsk
@@ -134,30 +135,32 @@ AppendNa ==
               /\ dsk' = AutoFlush(cur', {"na"}, mem')
          ELSE UNCHANGED <<mem, cur, dsk>>
     /\ pc' = "stepdone"
-    /\ UNCHANGED <<cfg, i, xbuf, xdsk, torn, ckpt, tmp, crashes, exact, scr, cks, hist>>
+    /\ UNCHANGED <<cfg, i, xbuf, xdsk, torn, ckpt, tmp, crashes, exact, scr, cks, hist, litter>>
 
 \* _do_integrator_step has returned                                              [md.step]
 StepDone ==
     /\ pc = "stepdone" /\ pc' = "scr"
-    /\ UNCHANGED <<cfg, i, cur, mem, dsk, xbuf, xdsk, torn, ckpt, tmp, crashes, exact, scr, cks, hist>>
+    /\ UNCHANGED <<cfg, i, cur, mem, dsk, xbuf, xdsk, torn, ckpt, tmp, crashes, exact, scr, cks, hist, litter>>
 
 \* _output_to_screen
 Screen ==
     /\ pc = "scr"
     /\ scr' = IF Due(cfg.print, i + 1) THEN Append(scr, i + 1) ELSE scr
     /\ pc' = "data"
-    /\ UNCHANGED <<cfg, i, cur, mem, dsk, xbuf, xdsk, torn, ckpt, tmp, crashes, exact, cks, hist>>
+    /\ UNCHANGED <<cfg, i, cur, mem, dsk, xbuf, xdsk, torn, ckpt, tmp, crashes, exact, cks, hist, litter>>
 
 \* append_data: the step label is stored first ...                              [md.data.mid]
 DataSkip ==
     /\ pc = "data" /\ ~Due(Cad("data"), i + 1)
     /\ pc' = "vec"
-    /\ UNCHANGED <<cfg, i, cur, mem, dsk, xbuf, xdsk, torn, ckpt, tmp, crashes, exact, scr, cks, hist>>
+    /\ UNCHANGED <<cfg, i, cur, mem, dsk, xbuf, xdsk, torn, ckpt, tmp, crashes, exact, scr, cks, hist, litter>>
 DataMid ==
     /\ pc = "data" /\ Due(Cad("data"), i + 1)
-    /\ mem' = Put(mem, {"data"}, Bad(i + 1))
+    \* over a stale but identical row (left by an earlier, crashed segment) the label write changes nothing
+    /\ mem' = Put(mem, {"data"}, IF cur["data"] < Cap("data") /\ mem["data"][cur["data"]] = Val(i + 1)
+                                   THEN Val(i + 1) ELSE Bad(i + 1))
     /\ pc' = "data2"
-    /\ UNCHANGED <<cfg, i, cur, dsk, xbuf, xdsk, torn, ckpt, tmp, crashes, exact, scr, cks, hist>>
+    /\ UNCHANGED <<cfg, i, cur, dsk, xbuf, xdsk, torn, ckpt, tmp, crashes, exact, scr, cks, hist, litter>>
 \* ... then the values, the TDM row if due, the cursor and the automatic flush    [md.data]
 DataFull ==
     /\ pc = "data2"
@@ -165,7 +168,7 @@ DataFull ==
        IN /\ mem' = Put(mem, W, Val(i + 1)) /\ cur' = Adv(W)
           /\ dsk' = AutoFlush(cur', {"data"}, mem')
     /\ pc' = "vec"
-    /\ UNCHANGED <<cfg, i, xbuf, xdsk, torn, ckpt, tmp, crashes, exact, scr, cks, hist>>
+    /\ UNCHANGED <<cfg, i, xbuf, xdsk, torn, ckpt, tmp, crashes, exact, scr, cks, hist, litter>>
 
 \* append_vectors                                                               [md.vec]
 VecDue(s) == /\ Due(Cad(s), i + 1)
@@ -180,46 +183,46 @@ AppendVec ==
        IN /\ mem' = Put(mem, W, Val(i + 1)) /\ cur' = Adv(W)
           /\ dsk' = AutoFlush(cur', W, mem')
     /\ pc' = "xyz"
-    /\ UNCHANGED <<cfg, i, xbuf, xdsk, torn, ckpt, tmp, crashes, exact, scr, cks, hist>>
+    /\ UNCHANGED <<cfg, i, xbuf, xdsk, torn, ckpt, tmp, crashes, exact, scr, cks, hist, litter>>
 
 \* XYZWriter.write into the 1 MB user-space buffer                               [md.xyz]
 AppendXyz ==
     /\ pc = "xyz"
     /\ xbuf' = IF Due(cfg.xyz, i + 1) THEN Append(xbuf, Val(i + 1)) ELSE xbuf
     /\ pc' = IF Due(cfg.ckpt, i + 1) THEN "flushh" ELSE "next"
-    /\ UNCHANGED <<cfg, i, cur, mem, dsk, xdsk, torn, ckpt, tmp, crashes, exact, scr, cks, hist>>
+    /\ UNCHANGED <<cfg, i, cur, mem, dsk, xdsk, torn, ckpt, tmp, crashes, exact, scr, cks, hist, litter>>
 
 \* _flush_all: first the HDF5 files, then the XYZ files                          [md.flush after both]
 FlushH5 ==
     /\ pc = "flushh" /\ dsk' = mem /\ pc' = "flushx"
-    /\ UNCHANGED <<cfg, i, cur, mem, xbuf, xdsk, torn, ckpt, tmp, crashes, exact, scr, cks, hist>>
+    /\ UNCHANGED <<cfg, i, cur, mem, xbuf, xdsk, torn, ckpt, tmp, crashes, exact, scr, cks, hist, litter>>
 FlushXyz ==
     /\ pc = "flushx" /\ xdsk' = xdsk \o xbuf /\ xbuf' = << >> /\ pc' = "tmp"
-    /\ UNCHANGED <<cfg, i, cur, mem, dsk, torn, ckpt, tmp, crashes, exact, scr, cks, hist>>
+    /\ UNCHANGED <<cfg, i, cur, mem, dsk, torn, ckpt, tmp, crashes, exact, scr, cks, hist, litter>>
 
 \* _atomic_save_checkpoint: mkstemp + torch.save into the temp file              [md.ckpt_tmp]
 TmpPartial ==
     /\ pc = "tmp" /\ tmp' = "partial" /\ pc' = "tmp2"
-    /\ UNCHANGED <<cfg, i, cur, mem, dsk, xbuf, xdsk, torn, ckpt, crashes, exact, scr, cks, hist>>
+    /\ UNCHANGED <<cfg, i, cur, mem, dsk, xbuf, xdsk, torn, ckpt, crashes, exact, scr, cks, hist, litter>>
 TmpComplete ==
     /\ pc = "tmp2" /\ tmp' = "complete" /\ pc' = "replace"
-    /\ UNCHANGED <<cfg, i, cur, mem, dsk, xbuf, xdsk, torn, ckpt, crashes, exact, scr, cks, hist>>
+    /\ UNCHANGED <<cfg, i, cur, mem, dsk, xbuf, xdsk, torn, ckpt, crashes, exact, scr, cks, hist, litter>>
 \* os.replace(tmp, path)                                                         [md.ckpt_replace]
 Replace ==
     /\ pc = "replace"
     /\ ckpt' = [done |-> i + 1, xlen |-> Len(xdsk)]
     /\ tmp' = "none" /\ cks' = Append(cks, i + 1) /\ pc' = "next"
-    /\ UNCHANGED <<cfg, i, cur, mem, dsk, xbuf, xdsk, torn, crashes, exact, scr, hist>>
+    /\ UNCHANGED <<cfg, i, cur, mem, dsk, xbuf, xdsk, torn, crashes, exact, scr, hist, litter>>
 
 NextIter ==                                                                      \* [md.iter_end]
     /\ pc = "next" /\ i' = i + 1 /\ pc' = "step"
-    /\ UNCHANGED <<cfg, cur, mem, dsk, xbuf, xdsk, torn, ckpt, tmp, crashes, exact, scr, cks, hist>>
+    /\ UNCHANGED <<cfg, cur, mem, dsk, xbuf, xdsk, torn, ckpt, tmp, crashes, exact, scr, cks, hist, litter>>
 
 \* loop exhausted: the finally block closes (= flushes) both writers             [md.close]
 Finish ==
     /\ pc = "step" /\ i = Steps
     /\ dsk' = mem /\ xdsk' = xdsk \o xbuf /\ xbuf' = << >> /\ pc' = "done"
-    /\ UNCHANGED <<cfg, i, cur, mem, torn, ckpt, tmp, crashes, exact, scr, cks, hist>>
+    /\ UNCHANGED <<cfg, i, cur, mem, torn, ckpt, tmp, crashes, exact, scr, cks, hist, litter>>
 
 -----------------------------------------------------------------------------
 Running == pc \in {"step", "na", "stepdone", "scr", "data", "data2", "vec", "xyz", "flushh", "flushx",
@@ -234,7 +237,7 @@ SoftCrash ==
     /\ tmp' = IF pc \in {"tmp2", "replace"} THEN "none" ELSE tmp
     /\ pc' = "dead"
     /\ hist' = IF RecordHist THEN Append(hist, <<pc, i, "soft">>) ELSE hist
-    /\ UNCHANGED <<cfg, i, cur, mem, torn, ckpt, exact, scr, cks>>
+    /\ UNCHANGED <<cfg, i, cur, mem, torn, ckpt, exact, scr, cks, litter>>
 
 \* kill -9: user-space buffers are lost; any prefix of the XYZ buffer (possibly ending in a torn
 \* frame) and the unflushed rows of any subset of streams may already have reached the files
@@ -249,7 +252,8 @@ HardCrash ==
     /\ xbuf' = << >>
     /\ pc' = "dead"
     /\ hist' = IF RecordHist THEN Append(hist, <<pc, i, "hard">>) ELSE hist
-    /\ UNCHANGED <<cfg, i, cur, mem, ckpt, tmp, exact, scr, cks>>
+    /\ tmp' = "none" /\ litter' = litter + (IF tmp = "none" THEN 0 ELSE 1)
+    /\ UNCHANGED <<cfg, i, cur, mem, ckpt, exact, scr, cks>>
 
 \* run_from_checkpoint: new process, step_offset = step_done, cursors recomputed,
 \* files reopened ("r+" / "a+")                                                   [md.resume_open, md.init]
@@ -267,7 +271,7 @@ Resume ==
     /\ xbuf' = << >>
     /\ exact' = (exact /\ ResumeExact)
     /\ pc' = "step"
-    /\ UNCHANGED <<cfg, dsk, ckpt, tmp, crashes, scr, cks, hist>>
+    /\ UNCHANGED <<cfg, dsk, ckpt, tmp, crashes, scr, cks, hist, litter>>
 
 Next == \/ Fresh \/ Integrate \/ AppendNa \/ StepDone \/ Screen \/ DataSkip \/ DataMid \/ DataFull \/ AppendVec
         \/ AppendXyz \/ FlushH5 \/ FlushXyz \/ TmpPartial \/ TmpComplete \/ Replace \/ NextIter
@@ -310,7 +314,8 @@ CkptCadence    == pc = "done" /\ crashes = 0 => cks = PosMult(cfg.ckpt)
 CursorAtCap    == pc = "done" => \A s \in H5Streams : cur[s] = NRows(s)
 \* C11 (b) for the streams the property lists: pre-allocated capacity = rows written
 NoFiller       == \A s \in H5Streams \ {"tdm"} : NRows(s) = Cap(s)
-NoTmpLitterSoft == pc = "done" /\ crashes = 0 => tmp = "none"
+\* exceptions never leave temp files behind (only kills can)
+NoTmpLitterSoft == (pc = "done" => tmp = "none") /\ ("hard" \notin CrashKinds => litter = 0)
 
 \* the cursor of a stream always points just past the last row whose label is due
 CursorConsistent ==
